@@ -32,12 +32,15 @@ type SyncScenario struct {
 	Prefill int         `json:"prefill"` // headers already in the store (0 = empty: subjective initialisation)
 	Tip0    int         `json:"tip0"`    // network head at start
 	Events  []SyncEvent `json:"events"`
+	// Lenient: the header type's own Verify does not look at heights at or below the trusted one (like a type
+	// that only checks signatures and the hash link); refusing such headers is then entirely the library's job
+	Lenient bool `json:"lenient,omitempty"`
 	// Sched, when set, selects the schedule engine (c03sched_test.go); the other fields are unused then.
 	Sched *SyncSchedScenario `json:"sched,omitempty"`
 }
 
 var validGossip = []string{"tip", "tip", "tip", "skip", "dup", "mid"}
-var advGossip = []string{vh.AdvForged, vh.AdvForged, vh.AdvForked, vh.AdvWrongChain, vh.AdvFuture, vh.AdvTimeRegress, "stale", "forged_far", "forged_adjacent", "bad_validate_ok"}
+var advGossip = []string{vh.AdvForged, vh.AdvForged, vh.AdvForked, vh.AdvWrongChain, vh.AdvFuture, vh.AdvTimeRegress, "stale", "stale_fresh", "stale_fresh", "forged_far", "forged_adjacent", "bad_validate_ok"}
 
 func genSyncEvent(t *rapid.T, adversarial bool) SyncEvent {
 	switch rapid.IntRange(0, 11).Draw(t, "evclass") {
@@ -81,6 +84,7 @@ func genSync(adversarial bool) func(t *rapid.T) SyncScenario {
 		s := SyncScenario{
 			Prefill: rapid.SampledFrom([]int{0, 0, 1, 5, 40}).Draw(t, "prefill"),
 			Tip0:    rapid.SampledFrom([]int{1, 2, 10, 60, 130}).Draw(t, "tip0"),
+			Lenient: adversarial && rapid.IntRange(0, 2).Draw(t, "lenient") == 0,
 		}
 		if s.Prefill > s.Tip0 {
 			s.Prefill = s.Tip0
@@ -106,7 +110,11 @@ type syncObs struct {
 func runSync(t *testing.T, s SyncScenario, c03 bool) (res Result) {
 	bubble(t, func() {
 		delta := time.Second
-		chain := newSyncChain("sync", syncChainLen, uint64(s.Tip0), delta, nil)
+		var flags uint8
+		if s.Lenient {
+			flags = vh.FlagLenientOrder
+		}
+		chain := newSyncChain("sync", syncChainLen, uint64(s.Tip0), delta, nil, flags)
 		e, err := newSyncEnv(chain, uint64(s.Tip0), delta, nil,
 			hsync.WithBlockTime(delta), hsync.WithTrustingPeriod(10_000*time.Hour),
 			hsync.WithSyncFromHeight(1), hsync.WithPruningWindow(10_000*time.Hour))
@@ -486,6 +494,19 @@ func runSync(t *testing.T, s SyncScenario, c03 bool) (res Result) {
 					}
 					k := uint64(ev.K) % sh.H
 					h = chain.At(sh.H - k)
+				case "stale_fresh":
+					// a different header for a height that is already stored (same lineage and valid link, other
+					// content), stamped like the current head: only the "height already known" clause can refuse it
+					adversarial = true
+					sh, err := e.st.Head(ctx)
+					if err != nil || sh.H < 2 {
+						continue
+					}
+					k := 1 + uint64(ev.K)%(sh.H-1)
+					h = chain.At(sh.H - k).Clone()
+					h.Salt = uint32(9000 + i)
+					h.T = sh.T
+					h.Seal()
 				case "forged_far":
 					adversarial = true
 					h = vh.Variant(chain.At(min(tip+uint64(ev.K)*7, syncChainLen-1)), vh.AdvForged, uint32(i))
